@@ -14,7 +14,7 @@ func (c *Ctx) partitionReplay(l codeLayout) func(o *vc.Outcome) string {
 		al := insAlphabet()
 		var ins []string
 		for _, i := range l.Ins {
-			ins = append(ins, fmt.Sprintf("\t\tmkAt(0x%x, 0x%x, %d, func(a, t uint64) []expr.Effect { return %s }),", i.Addr, i.Target, al[i.T].Type, templateSrc[i.T]))
+			ins = append(ins, fmt.Sprintf("\t\tmkAt(0x%x, 0x%x, %d, func(a, t uint64) []expr.Effect { return %s }),", i.Addr, i.Target, al[i.T].Type, templateSrc(i.T)))
 		}
 		want, msg := specPartition(l)
 		var ws []string
